@@ -77,6 +77,7 @@ fn render(doc: &Value, dir: &str, fmt: usize) -> Value {
     let zero_limit: Value = [json!(0), json!(0), json!(0), json!("0 kb")][fmt % 4].clone();
     let spelled_w: Value = [json!(1024), json!("1024 b"), json!("1Kb"), json!("1   kib")][fmt % 4].clone();
     let del = json!({"kind": "delete"});
+    let two_hours: Value = [json!("2 HOURS"), json!("2 hourS"), json!(7200), json!("2 Hours")][fmt % 4].clone();
     let win = |extra: Value| {
         let mut m = json!({"kind": "fixed_window", "pattern": format!("{}/x.{{}}.log", dir), "count": 2});
         for (k, v) in extra.as_object().unwrap() {
@@ -98,6 +99,9 @@ fn render(doc: &Value, dir: &str, fmt: usize) -> Value {
         "roll_window" => Some(roll(json!({"kind": "compound", "trigger": {"kind": "size", "limit": spelled_w}, "roller": win(json!({}))}))),
         // a limit of zero, as a bare integer (the formats hand integers to the reader differently: unsigned, signed)
         "roll_zero_limit" => Some(roll(json!({"trigger": {"kind": "size", "limit": zero_limit}, "roller": del}))),
+        // an interval of two hours, spelled differently in each rendering (unit case does not matter, singular and
+        // plural are both units, a bare number is seconds)
+        "roll_time" => Some(roll(json!({"trigger": {"kind": "time", "interval": two_hours}, "roller": del}))),
         "console" => Some(json!({"kind": "console", "target": "stderr", "tty_only": true})),
         "file_unknown_key" => Some(json!({"kind": "file", "path": path, "colour": true})),
         "file_path_wrong_type" => Some(json!({"kind": "file", "path": 5})),
@@ -219,7 +223,7 @@ fn check_format(case: &Value, fmt: usize) -> Option<Value> {
     let built = Arc::new(AtomicUsize::new(0));
     let mk = || {
         let mut d = Deserializers::default();
-        d.insert("capture", CaptureDeserializer { sink: sink.clone(), built: built.clone() });
+        d.insert("capture", CaptureDeserializer { sink: sink.clone(), built: built.clone(), slow_v3: std::time::Duration::ZERO });
         d
     };
     let class = case["class"].as_str().unwrap();
